@@ -15,8 +15,11 @@ from typing import Any, Dict, List, Optional
 
 VERIF = Path(__file__).resolve().parent.parent
 REPO = Path(os.environ.get("VERIF_REPO", "/repo")).resolve()
-EVIDENCE_DIR = VERIF / "evidence"
-REPLAY_DIR = VERIF / "replays"
+# Evidence and replays of the registered checks describe /repo itself.  When a check is pointed at a scratch copy
+# (VERIF_REPO, used by selftest / mutant runs) nothing under /verif/evidence is touched.
+_SCRATCH = REPO != Path("/repo")
+EVIDENCE_DIR = (Path(os.environ.get("VERIF_SCRATCH_OUT", "/tmp/verif_scratch_out")) / "evidence") if _SCRATCH else VERIF / "evidence"
+REPLAY_DIR = (Path(os.environ.get("VERIF_SCRATCH_OUT", "/tmp/verif_scratch_out")) / "replays") if _SCRATCH else VERIF / "replays"
 KNOWN_FINDINGS = VERIF / "known_findings.json"
 
 
@@ -127,7 +130,7 @@ class Report:
         seen = {}
         for v in real:
             seen.setdefault(v.key, v)
-        REPLAY_DIR.mkdir(exist_ok=True)
+        REPLAY_DIR.mkdir(parents=True, exist_ok=True)
         for key, v in seen.items():
             fn = REPLAY_DIR / f"{self.prop}_{hashlib.sha1(key.encode()).hexdigest()[:10]}.json"
             payload = dict(v.replay)
@@ -179,7 +182,7 @@ class Report:
             "wall_s": round(time.time() - self.t0, 2),
             "violations": len(seen),
         }
-        EVIDENCE_DIR.mkdir(exist_ok=True)
+        EVIDENCE_DIR.mkdir(parents=True, exist_ok=True)
         (EVIDENCE_DIR / f"{self.prop}.json").write_text(json.dumps(ev, indent=1, default=str))
         for ln in lines:
             print(ln)
